@@ -63,3 +63,91 @@ Theorem C06_source_rsw_sub_block_rank : forall r sub_block,
   g_rsw_sub_block_rank (rsw_meta r) sub_block = rsw_sub_block_rank r sub_block.
 Proof. exact g_rsw_sub_block_rank_ok. Qed.
 Print Assumptions C06_source_rsw_sub_block_rank.
+
+From QwtModel Require Import Loops FnsBv FnsRsn2 FnsBvOk FnsRsn2Ok.
+
+(* ---- T5: the QUERY ALGORITHMS of RSNarrow REGENERATED from src/bitvector/rs_narrow.rs and
+   src/bitvector/mod.rs on every run (tools/gen_fns.py -> Gen/FnsBv.v, Gen/FnsRsn2.v: statement-by-statement
+   translation of the Rust text, loops through Base/Loops.v, every + - * << >> checked at its machine width,
+   every used field of self a parameter; `Box<[DataLine]>` = the list of the lines = chunks 8 of the word slice).
+   For every bit sequence, on the fields of the structure the (hand-modelled, byte-compared) constructor builds,
+   the regenerated get / rank1 / rank1_unchecked / select1 / select0 / their unchecked variants / n_ones /
+   n_zeros return exactly the list specification, for every fuel above the number of directory entries. *)
+Theorem C06_source_rsnarrow_queries : forall bs, len bs < 2 ^ 43 ->
+  exists bv r, bv_from_bools bs = Val bv /\ rsn_new bv = Val r /\
+    (forall fuel k, (S (length (rsn_pairs r)) <= fuel)%nat -> k < 2 ^ 64 ->
+       g_rsn_select1 fuel (chunks 8 (bv_words bv)) (bv_nbits bv) (rsn_pairs r) [rsn_samples0 r; rsn_samples1 r] k
+       = Val (select1_spec bs k)) /\
+    (forall fuel k, (S (length (rsn_pairs r)) <= fuel)%nat -> k < 2 ^ 64 ->
+       g_rsn_select0 fuel (chunks 8 (bv_words bv)) (bv_nbits bv) (rsn_pairs r) [rsn_samples0 r; rsn_samples1 r] k
+       = Val (select0_spec bs k)) /\
+    (forall i, i < 2 ^ 64 ->
+       g_rsn_rank1 (chunks 8 (bv_words bv)) (bv_nbits bv) (rsn_pairs r) i
+       = Val (if negb (len bs =? 0) && (i <=? len bs) then Some (rank1_spec bs i) else None)) /\
+    g_rsn_n_ones (chunks 8 (bv_words bv)) (bv_nbits bv) (rsn_pairs r) = Val (countb bs) /\
+    g_rsn_n_zeros (chunks 8 (bv_words bv)) (bv_nbits bv) (rsn_pairs r) = Val (len bs - countb bs) /\
+    (forall i, g_bv_get (chunks 8 (bv_words bv)) (bv_nbits bv) i = Val (nthN bs i)) /\
+    (forall i, 0 < len bs -> i <= len bs ->
+       g_rsn_rank1_unchecked (chunks 8 (bv_words bv)) (rsn_pairs r) i = Val (rank1_spec bs i)) /\
+    (forall fuel k p, (S (length (rsn_pairs r)) <= fuel)%nat -> select1_spec bs k = Some p ->
+       g_rsn_select1_unchecked fuel (chunks 8 (bv_words bv)) (rsn_pairs r) [rsn_samples0 r; rsn_samples1 r] k = Val p) /\
+    (forall fuel k p, (S (length (rsn_pairs r)) <= fuel)%nat -> select0_spec bs k = Some p ->
+       g_rsn_select0_unchecked fuel (chunks 8 (bv_words bv)) (rsn_pairs r) [rsn_samples0 r; rsn_samples1 r] k = Val p).
+Proof. exact g_rsn_of_bools_correct. Qed.
+Print Assumptions C06_source_rsnarrow_queries.
+
+(* the bit accessors of BitVector regenerated from the source equal the hand model (no hypothesis) *)
+Theorem C06_source_bv_get : forall b index,
+  g_bv_get (chunks 8 (bv_words b)) (bv_nbits b) index = bv_get b index.
+Proof. exact g_bv_get_chunks. Qed.
+Print Assumptions C06_source_bv_get.
+Theorem C06_source_get_bit_slice : forall ws index, g_get_bit_slice ws index = bv_get_bit_slice ws index.
+Proof. exact g_get_bit_slice_ok. Qed.
+Print Assumptions C06_source_get_bit_slice.
+
+From QwtModel Require Import FnsRsw2 FnsRsw2Ok.
+
+(* ---- T5: the same for RSWide (src/bitvector/rs_wide.rs -> Gen/FnsRsw2.v), including the in-line searches of
+   the bit DataLine (select1/select0_unchecked: for loops over the eight words; rank1_unchecked: the `left: i32`
+   countdown, signed arithmetic as Z in range) *)
+Theorem C06_source_rswide_select : forall bs, len bs < 2 ^ 43 ->
+  exists bv r, bv_from_bools bs = Val bv /\ rsw_new bv = Val r /\
+    forall fuel, (S (length (rsw_meta r)) <= fuel)%nat ->
+    (forall k, k < 2 ^ 64 ->
+       g_rsw_select1 fuel (chunks 8 (bv_words bv)) (bv_nbits bv) (rsw_meta r) [rsw_samples0 r; rsw_samples1 r]
+         (rsw_n_zeros r) k = Val (select1_spec bs k)) /\
+    (forall k, k < 2 ^ 64 ->
+       g_rsw_select0 fuel (chunks 8 (bv_words bv)) (rsw_meta r) [rsw_samples0 r; rsw_samples1 r]
+         (rsw_n_zeros r) k = Val (select0_spec bs k)) /\
+    g_rsw_n_ones (bv_nbits bv) (rsw_n_zeros r) = Val (countb bs) /\
+    g_rsw_n_zeros (rsw_n_zeros r) = Val (len bs - countb bs) /\
+    (forall k p, k < 2 ^ 64 -> select1_spec bs k = Some p ->
+       g_rsw_select1_unchecked fuel (chunks 8 (bv_words bv)) (rsw_meta r) [rsw_samples0 r; rsw_samples1 r] k = Val p) /\
+    (forall k p, k < 2 ^ 64 -> select0_spec bs k = Some p ->
+       g_rsw_select0_unchecked fuel (chunks 8 (bv_words bv)) (rsw_meta r) [rsw_samples0 r; rsw_samples1 r] k = Val p).
+Proof. exact rsw_gen_of_bools_correct. Qed.
+Print Assumptions C06_source_rswide_select.
+
+Theorem C06_source_rswide_rank : forall bs, len bs < 2 ^ 43 ->
+  exists bv r, bv_from_bools bs = Val bv /\ rsw_new bv = Val r /\
+    (forall i, i < 2 ^ 64 ->
+       g_rsw_rank1 (chunks 8 (bv_words bv)) (bv_nbits bv) (rsw_meta r) i
+       = Val (if negb (len bs =? 0) && (i <=? len bs) then Some (rank1_spec bs i) else None)) /\
+    (forall i, 0 < len bs -> i <= len bs ->
+       g_rsw_rank1_unchecked (chunks 8 (bv_words bv)) (rsw_meta r) i = Val (rank1_spec bs i)).
+Proof. exact rsw_gen_of_bools_rank_correct. Qed.
+Print Assumptions C06_source_rswide_rank.
+
+(* the searches inside a 512-bit line, regenerated, equal the hand model on every line of eight u64 words *)
+Theorem C06_source_bline_select1 : forall l i, length l = 8%nat -> Forall (fun w => w < 2 ^ 64) l ->
+  g_bline_select1_unchecked l i = bline_select_loop false l i 0 0.
+Proof. exact g_bline_select1_unchecked_ok. Qed.
+Print Assumptions C06_source_bline_select1.
+Theorem C06_source_bline_select0 : forall l i, length l = 8%nat -> Forall (fun w => w < 2 ^ 64) l ->
+  g_bline_select0_unchecked l i = bline_select_loop true l i 0 0.
+Proof. exact g_bline_select0_unchecked_ok. Qed.
+Print Assumptions C06_source_bline_select0.
+Theorem C06_source_bline_rank1 : forall l i, length l = 8%nat -> Forall (fun w => w < 2 ^ 64) l ->
+  g_bline_rank1 l i = Val (bline_rank1 l i).
+Proof. exact g_bline_rank1_ok. Qed.
+Print Assumptions C06_source_bline_rank1.
